@@ -20,6 +20,7 @@ CLAIMS = {
  "C04": "The real spmc queue in three families: (a) the scheduler's shape, 2-3 threads each owning a Local with Steal handles to the others (push_back / pop / steal_into), (b) the raw queue with one owner and 1-3 consumers (pop / bulk_pop), pre-rolled to block boundaries, (c) heavy traffic over several blocks with the allocator in LIFO-reuse or poison mode and long preemptions of a taker, which reaches the 'block freed and re-allocated at the same address' (ABA) case. Owners keep pushing while a taker still has an operation outstanding (a claimed slot completes once filled). Oracles: every task obtained exactly once (explicit taken table: a task silently dropped by the queue is a loss), canaries + drop table (never an uninitialised or freed slot), per-consumer ascending order and contiguous bulk batches on the raw queue, all operations return.",
  "C08": "1-4 actors (thread/coroutine) each doing 1-3 timed waits of random kinds - sleep, mpsc/mpmc recv_timeout, Semphore/SyncFlag/Condvar wait_timeout, Blocker::park(timeout), coroutine::park_timeout - with d from {0, 1 ns, 999 ns, 0.5 ms, 999 999 ns, 1 ms, 1 ms+1 ns, 1.5 ms, 2 ms+1 ns, 3 ms, 10 ms, 100 ms, 1 s, 1 h} drawn from a per-run palette so equal intervals share a timer list and different ones compete in the heap; a third of the waits is satisfied by a helper before / just before / at / after the deadline (exercises del_timer / remove of head, middle, last entries). Oracles: Timeout never before d (exact, virtual clock), a wait nobody satisfied never reports success, every wait returns (hung verdict), and in quiet runs (no stall, no tick) a timer fires within 1 ms of its deadline (ns-exact for sleep and thread waits, whole-ms for Park based waits).",
  "C14": "coroutine::scope with 1-4 children (nested scope inside a child, explicit ScopedJoinHandle joins, scripted child panics) owned by a thread or a coroutine, with a panic of the owner inside the scope body or a cancel of the owner at a random point (also while it waits at the scope end); select! with 2-3 arms one of which waits in join! (safe code only) while another arm wins. A frame token whose Drop marks the owner's frame dead is checked by every child at each of its steps; oracles: no child / arm ever runs after the frame died, scope/select! returns only when started == ended children and no arm is executing, explicit joins return the child's value, the first child panic reaches the owner, owner outcome is the scripted one, no crash.",
+ "C16": "cqueue::scope with 1-4 select coroutines of 1-3 events each (tops: yield / sleep / recv on a per-arm channel / nothing), thread or coroutine poller with poll(None) or poll(timeout), leaving the scope after k events (drop drains the rest), Selector::remove of an arm, scripted panic in a top or bottom half; select! with 2-4 arms firing at the same virtual instant and a panicking arm. Oracles per arm and event: top then bottom, each exactly once, an event returned by poll has had its bottom half run at that moment and is returned once, Finished only when every select coroutine has ended, Timeout never early, no select coroutine executing when the scope / select! returns or unwinds, select! returns the token of an arm whose halves both ran, an arm's panic payload reaches the poller, poll always returns (hung / livelock verdicts).",
  "C19": "mpsc_list_v1: 1-3 producers push 1-5 entries and hand the Entry handles to the single consumer, which interleaves pop, pop_if, peek, is_empty, remove(handle) of oldest / newest / already consumed entries and handle drops while the producers append; plain mpsc_list: push/pop/is_empty. Oracles: every entry consumed exactly once (pop xor remove), remove returns the handle's own value and never a consumed one, popped values respect the real-time push order, 'empty' answers only if the list could have been empty, push's head report sound in both directions, remove -> None on an unconsumed entry only while a possible direct successor push is in flight (the documented exception), drop table, plain list: FIFO linearizability.",
  "C03": "1-3 producers and one consumer (pop, bulk_pop, peek+pop, len, is_empty) on the real mpsc/spsc block queues, pre-rolled so the concurrent phase straddles block boundaries and block recycling, optional drop with values inside; spurious compare_exchange_weak failures. Oracles: canary payloads + drop table (exactly-once, no uninitialised/freed slot), FIFO linearizability of the whole history (exact for one consumer), len/is_empty bounds.",
 }
